@@ -106,12 +106,12 @@ PROPS["C14"] = dict(
     runs=dict(quick=4000, thorough=120000), secs=dict(quick=50, thorough=600),
     det_pairs=dict(quick=64, thorough=256),
     rule="one evaluation = one threadsim run in a child forked from a process that never entered libopus: 2-6 tasks (real pthreads, one baton) each creating, configuring, using and destroying its own "
-         "encoder / decoders / repacketizer (kinds and configurations mixed, at least two tasks of the same kind, often identical), interleaved by a seeded scheduler that preempts at traced memory accesses of "
+         "encoder / decoders (normal decode, concealment and FEC calls, resets) / repacketizer (kinds and configurations mixed, at least two tasks of the same kind, often identical), interleaved by a seeded scheduler that preempts at traced memory accesses of "
          "library code (clang -fsanitize=thread instrumentation, own runtime) after seeded access counts or at a task's n-th first entry into a library function; oracle (i) ownership / vector-clock detector: "
          "no access to another task's heap or stack, no unordered conflicting pair on any other writable location; oracle (ii) every task's results equal those of the same task run alone afterwards; "
          "non-trivial = at least one seeded preemption fired and >=5 encode/decode calls succeeded; distinct = 64-bit signature over (preemption list, switches, per-task access counts)",
     fault_keys=["preemptions_fired", "switches"],
-    probes_required=["traced_accesses", "rodata_reads", "first_function_entries", "tasks_2", "tasks_3", "mode_silk", "mode_hybrid", "mode_celt", "rp_ops"],
+    probes_required=["traced_accesses", "rodata_reads", "first_function_entries", "tasks_2", "tasks_3", "mode_silk", "mode_hybrid", "mode_celt", "rp_ops", "plc_ops", "fec_ops"],
     real=REAL_CODEC + ["real pthreads (one per task), real libopus code instrumented by the compiler's TSan pass"],
     simulated=["thread scheduler (baton; seeded preemption at memory-access granularity)", "TSan runtime replaced by the simulator's ownership / happens-before detector",
                "per-task heap arenas and stacks (simulator-owned, never reused across tasks)", "signal sources, control plane (seeded)", "CPU level behind --wrap=opus_select_arch"],
